@@ -90,7 +90,7 @@ def _tables(repo, rep):
               construct="default-type", detail=src(de) if de is not None
               else "missing")
     ep = repo.func("chameleon.zpt.template.PageTemplate.expression_parser")
-    text = " ".join(src(s) for s in ep.node.body)
+    text = L.text(ep.node, body_only=True)
     rep.check("ExpressionParser(self.expression_types, "
               "self.default_expression)" in text, "R04.1", ep.qualname,
               "the parser is built from these two tables",
@@ -148,8 +148,7 @@ def _tables(repo, rep):
               "followed by ':'", construct="prefix-pattern", detail=detail)
     # ExpressionParser: prefix regex + dispatch
     pf = repo.func(TALES + "ExpressionParser.__call__")
-    text = " ".join(src(s) for s in ast.walk(pf.node)
-                    if isinstance(s, ast.stmt))
+    text = L.text(pf.node)
     rep.check("prefix = self.default" in text and
               "expression = expression[m.end():]" in text and
               "factory = self.factories[prefix]" in text, "R04.1",
@@ -321,8 +320,7 @@ def _lookup(repo, rep):
               "x.a becomes lookup_attr(x, 'a')", construct="transform-attr",
               where=L.where(ta))
     tl = repo.func(TALES + "PythonExpr.translate")
-    text = " ".join(src(s) for s in ast.walk(tl.node)
-                    if isinstance(s, ast.stmt))
+    text = L.text(tl.node)
     rep.check("result = self.transform.visit(value)" in text and
               "value=result" in text, "R04.3", tl.qualname,
               "the transformed tree is what gets assigned",
@@ -333,8 +331,7 @@ def _lookup(repo, rep):
     # NameTransform / Scope orders are decided under C05 (R05.5, R05.6);
     # here: the builtin fallback uses Builtin(name) (cannot be shadowed)
     nt = repo.func(COMP + "NameTransform.__call__")
-    text = " ".join(src(s) for s in ast.walk(nt.node)
-                    if isinstance(s, ast.stmt))
+    text = L.text(nt.node)
     rep.check("'get(key, name)'" in text and "name=Builtin(name)" in text and
               "key=ast.Constant(name)" in text, "R04.3", nt.qualname,
               "builtin names: template variable first, builtin as default",
@@ -426,7 +423,7 @@ def _linear(repo, rep):
               "its cache variable and not evaluated again",
               construct="cache-first", where=L.where(f),
               detail=A.show(v, limit=1)[:100])
-    text = " ".join(src(s) for s in f.node.body)
+    text = L.text(f.node, body_only=True)
     rep.check("cached = self.cache.get(expression)" in text, "R04.4",
               f.qualname, "the cache is keyed by the expression node",
               construct="cache-key", where=L.where(f))
@@ -473,8 +470,7 @@ def _binders(repo, rep):
                   construct="no-handler:" + b)
         if m is None:
             continue
-        text = " ".join(src(s) for s in ast.walk(m.node)
-                        if isinstance(s, ast.stmt))
+        text = L.text(m.node)
         pushes = [n for n in ast.walk(m.node) if isinstance(n, ast.Call)
                   and src(n.func) == "self.scopes.append"]
         rep.check(bool(pushes), "R04.6", m.qualname,
